@@ -314,6 +314,19 @@ def run(ctx):
     lim = ctx.pick(1200, 40000)
     if len(cases) > lim:
         cases = random.Random(ctx.seed).sample(cases, lim)
+    if ctx.quick:
+        # white-space-only leaves (with every tail) are outside the quick universe: all trees with ONE such child, a
+        # seeded third of them replayed
+        cfg1 = cfg.replace(f"MaxKids = {mk}", "MaxKids = 1").replace(f"LeafTexts = {texts}", 'LeafTexts = {" "}')
+        res1 = ctx.tlc("MC_Generic", "run.cfg", workers=1, extra_files={"run.cfg": cfg1 + "CONSTRAINT Emit\nCHECK_DEADLOCK FALSE\n"},
+                       label="Gen_Generic trees with a white-space-only leaf", tags=("TREE",), timeout=3000)
+        extra = []
+        for _t, c in res1.printed:
+            k = str(c["src"])
+            if k not in seen and c["src"]["kids"]:
+                seen.add(k)
+                extra.append(c)
+        cases += random.Random(ctx.seed + 11).sample(extra, min(len(extra), 300))
     for k, c in enumerate(cases):
         check_tree(ctx, c, list(PLACEMENTS))
         if k % 6 == 0:
